@@ -80,12 +80,12 @@ func findDefinitionTarget(journal *ast.Journal, pos protocol.Position) *definiti
 				}
 			}
 
-			if p.Amount != nil && p.Amount.Commodity.Symbol != "" {
-				if positionInRange(pos, p.Amount.Commodity.Range) {
+			for _, amount := range postingAmounts(p) {
+				if amount.Commodity.Symbol != "" && positionInRange(pos, amount.Commodity.Range) {
 					return &definitionTarget{
 						context:     DefContextCommodity,
-						name:        p.Amount.Commodity.Symbol,
-						symbolRange: astRangeToProtocol(p.Amount.Commodity.Range),
+						name:        amount.Commodity.Symbol,
+						symbolRange: astRangeToProtocol(amount.Commodity.Range),
 					}
 				}
 			}
@@ -184,12 +184,15 @@ func findFirstCommodityUsageResolved(symbol string, journals map[string]*ast.Jou
 			tx := &journal.Transactions[i]
 			for j := range tx.Postings {
 				p := &tx.Postings[j]
-				if p.Amount != nil && p.Amount.Commodity.Symbol == symbol {
+				for _, amount := range postingAmounts(p) {
+					if amount.Commodity.Symbol != symbol {
+						continue
+					}
 					if earliestDate == nil || compareDates(tx.Date, *earliestDate) < 0 {
 						earliestDate = &tx.Date
 						earliest = &protocol.Location{
 							URI:   pathToURI(filePath),
-							Range: *astRangeToProtocol(p.Amount.Commodity.Range),
+							Range: *astRangeToProtocol(amount.Commodity.Range),
 						}
 					}
 				}
